@@ -240,6 +240,16 @@ func historyScenario(sh shape, np int) engine.Scenario {
 			if err := enc.Encrypt(newPlaintext(params, st.lq, rlweMsgs(n)[n+3].coeffs(n, uni.QAtLevel(params, st.lq))), in); err != nil {
 				panic(err)
 			}
+			if st.lq > 0 {
+				// a call the evaluator cannot serve (ciphertext below the RGSW level: it panics half-way through its
+				// scratch buffers); the legal calls that follow must not be affected
+				low := rlwe.NewCiphertext(params, 1, st.lq-1)
+				if _, pan := uni.Try(func() error { used.ExternalProduct(low, ctG, low); return nil }); pan != nil {
+					c.Cover("exthistory-refused", "panic")
+				} else {
+					c.Cover("exthistory-refused", "returns")
+				}
+			}
 			for mode := 0; mode < 2; mode++ {
 				a, b := in.CopyNew(), in.CopyNew()
 				oa, ob := a, b
